@@ -39,6 +39,9 @@ func C18(c *Case) *Result {
 	}
 	K := 2 + t.Intn(maxK-1)
 	bigBWT := c.Thorough() && t.Intn(40) == 0
+	// one instance with blocks above the 256 KiB minimum buffer and a chain whose worst-case output
+	// exceeds the per-task buffers (the encoder enlarges them on the fly, next to its neighbours')
+	growth := !bigBWT && t.Intn(25) == 0
 	insts := make([]*c18inst, K)
 	heavy := 0
 	for i := range insts {
@@ -73,6 +76,13 @@ func C18(c *Case) *Result {
 			in.cfg = Config{Transform: "BWT", Entropy: "ANS0", BlockSize: 4*1024*1024 + 16*t.Intn(1024), Jobs: 2 + t.Intn(6), DecJobs: 2 + t.Intn(6), Hint: "absent", Checksum: 32}
 			in.rec = DataRecipe{Shape: "text", Len: in.cfg.BlockSize + t.Intn(100000), Seed: t.Seed()}
 			res.Probes["big.bwt.instance"]++
+		}
+		if growth && i == 0 {
+			bs := 256*1024 + 16*t.Intn(8*1024)
+			in.cfg = Config{Transform: []string{"EXE+LZX", "EXE+LZ", "TEXT+UTF+EXE+PACK+MM+ROLZ", "EXE+RLT+TEXT+UTF+DNA"}[t.Intn(4)], Entropy: []string{"NONE", "HUFFMAN"}[t.Intn(2)],
+				BlockSize: bs, Jobs: 3 + t.Intn(2), DecJobs: 1 + t.Intn(4), Hint: "absent", Checksum: 32}
+			in.rec = DataRecipe{Shape: []string{"exe", "mixed", "text"}[t.Intn(3)], Len: 2*bs + t.Intn(2*bs), Seed: t.Seed()}
+			res.Probes["buffer.growth.instance"]++
 		}
 		in.data = in.rec.Bytes()
 		hintValue(&in.cfg, len(in.data), t)
